@@ -233,7 +233,11 @@ class StubTLSSocket:
         self.cert = cert
         info["cert"] = cert.get("id")
         if context.verify_mode != ssl.CERT_NONE:
-            if not cert.get("trusted", True):
+            # trust domains: a certificate descriptor may say which CA issued it ("domain", default "public" = what
+            # the default store knows); a context the harness built may say which domains it trusts (attribute
+            # _mc_domains, default {"public"}): two legs with different trust configurations can be told apart
+            domain_ok = cert.get("domain", "public") in getattr(context, "_mc_domains", ("public",))
+            if not cert.get("trusted", True) or not domain_ok:
                 info["result"] = "untrusted"
                 net.log.append(("tls", info))
                 raise ssl.SSLCertVerificationError(1, "[SSL: CERTIFICATE_VERIFY_FAILED] certificate verify failed: unable to get local issuer certificate")
@@ -434,6 +438,9 @@ class Net:
     def sleep(self, s):
         self.sleeps.append(s)
         self.log.append(("sleep", s))
+        hook = getattr(self.server, "on_sleep", None)
+        if hook is not None:
+            hook(s)  # may raise (an interrupt arriving while the caller sleeps)
         if s and s > 0:
             self.now += s
 
